@@ -57,7 +57,15 @@ GenHolder(plain) == <<"dc", "GH", << <<"a", GBox(<<"int">>), <<"req">>, <<>> >>,
 ForeignItem == <<"dc", "Item", << <<"sku", <<"str">>, <<"req">>, <<>> >>, <<"n", <<"int">>, <<"val", I(1)>>, <<>> >> >>, << <<"mixin", "plain">>, <<"module", "shapes">> >> >>
 ForeignEnum == <<"enum", "Shade", "Enum", << <<"DARK", S("d")>>, <<"LIGHT", S("l")>> >>, << <<"module", "shapes">> >> >>
 ForeignHolder(arg) == <<"dc", "FHold", << <<"b", GBox(arg), <<"req">>, <<>> >> >>, <<>> >>
-Types1G == { GenHolder(TRUE), GenHolder(FALSE), GBox(<<"datetime">>), GBox(<<"union", << <<"int">>, <<"list", <<"int">> >> >> >>),
+\* TWO classes with ONE short name ("Item") in two modules, both bound to the type variable of one generic class inside one
+\* holder (either order of first compilation): each specialisation is the class named in ITS annotation
+LocalItem == <<"dc", "ItemL", << <<"sku", <<"int">>, <<"req">>, <<>> >>, <<"w", <<"str">>, <<"val", S("w")>>, <<>> >> >>, << <<"mixin", "plain">>, <<"pyname", "Item">> >> >>
+SameNameHolder(foreignFirst, plain) ==
+  <<"dc", "SNH", (IF foreignFirst THEN << <<"a", GBox(ForeignItem), <<"req">>, <<>> >>, <<"b", GBox(LocalItem), <<"req">>, <<>> >> >>
+                  ELSE << <<"b", GBox(LocalItem), <<"req">>, <<>> >>, <<"a", GBox(ForeignItem), <<"req">>, <<>> >> >>),
+    IF plain THEN << <<"mixin", "plain">> >> ELSE <<>> >>
+Types1G == { GenHolder(TRUE), GenHolder(FALSE), SameNameHolder(TRUE, FALSE), SameNameHolder(FALSE, FALSE), SameNameHolder(TRUE, TRUE),
+             <<"tuple", <<GBox(LocalItem), GBox(ForeignItem)>> >>, GBox(<<"datetime">>), GBox(<<"union", << <<"int">>, <<"list", <<"int">> >> >> >>),
              ForeignHolder(ForeignItem), ForeignHolder(ForeignEnum), GBox(ForeignItem) }
 \* GENERICS NESTED IN GENERICS: Node[T] (p: Pair[T, List[T]], q: Optional[Pair[List[T], Dict[str, T]]]) over a two-parameter generic
 \* Pair[A, B] -- the type variable occurs several times, top-level and nested, in the arguments of the inner alias
